@@ -476,7 +476,7 @@ def build_native_lib(dst):
     os.makedirs(objdir, exist_ok=True)
     def cc(s):
         o = os.path.join(objdir, s.replace("/", "_") + ".o")
-        cmd = ["clang", "-c", "-O1", "-g", "-fsanitize=address,undefined,pointer-compare,pointer-subtract", "-fno-omit-frame-pointer",
+        cmd = ["clang", "-c", "-O0", "-g", "-fsanitize=address,undefined,pointer-compare,pointer-subtract", "-fno-omit-frame-pointer",
                "-I" + os.path.join(REPO, "include")] + defs + [os.path.join(REPO, s), "-o", o, "-w"]
         p = subprocess.run(cmd, stdout=subprocess.PIPE, stderr=subprocess.STDOUT)
         return o, p.returncode, p.stdout.decode("utf-8", "replace")
@@ -531,7 +531,10 @@ def native_replay(job, cex, dest_dir, obligation):
                 try:
                     p = subprocess.run([exe], stdout=subprocess.PIPE, stderr=subprocess.STDOUT, timeout=120,
                                        env=dict(os.environ, ASAN_OPTIONS="detect_leaks=0:abort_on_error=0:detect_invalid_pointer_pairs=2", UBSAN_OPTIONS="print_stacktrace=1"))
-                    text = p.stdout.decode("utf-8", "replace")[-6000:]
+                    full = p.stdout.decode("utf-8", "replace")
+                    # library diagnostics (error_print lines "file:line:func():") can be thousands of lines: keep the verdict lines first
+                    keep = [l for l in full.splitlines() if l.startswith(("REPLAY-", "OBSERVE ")) or "ERROR: AddressSanitizer" in l or "runtime error:" in l or l.startswith("SUMMARY")]
+                    text = ("\n".join(keep[:80]) + "\n--- tail of raw output ---\n" + full[-4000:]) if len(full) > 6000 else full
                     if "ERROR: AddressSanitizer" in text or "runtime error:" in text or "REPLAY-VIOLATION" in text:
                         reproduced = True
                     elif "REPLAY-ASSUMPTION-FALSE" in text:
